@@ -33,6 +33,34 @@ MLOCK = 'PersistenceState.manifest_lock'
 MUTATORS = ['HnswBackend::insert', 'HnswBackend::delete', 'HnswBackend::update_metadata', 'HnswBackend::batch_delete']
 
 
+def manifest_rmw(ctx, prog, rid, lm):
+    """manifest read-modify-write atomicity (C09.R3; shared with C01.R9: a lost MANIFEST update un-lists a log segment that holds acknowledged writes)."""
+    MLOCK_ = MLOCK
+    # read-modify-write atomicity: a save writes back a manifest that was loaded in the SAME critical section (same acquisition of manifest_lock);
+    # releasing the lock between the load and the save lets a concurrent rotation's update be overwritten (lost update)
+    n_rmw = 0
+    for b in prog.bodies.values():
+        if 'hnsw_backend' not in b.id or b.kind == 'Promoted':
+            continue
+        root = b.short.split('::{')[0]
+        if root.endswith(('with_persistence_with_hnsw_params', 'recover_with_hnsw_params_and_mode')):
+            continue
+        of3 = flow.Origin(b)
+        for k3, c in enumerate(b.calls_to('Manifest::save')):
+            src = of3.of_operand(c.args[0])
+            loads = [x[3] for x in flow.walk(src) if x[0] == 'call' and len(x) > 3 and x[3] is not None and x[3].callee and x[3].callee.endswith('Manifest::load')]
+            if not loads:
+                # the manifest is a parameter (compact_old_wal_segments(&mut manifest)) or freshly built: the caller's instance covers it
+                continue
+            n_rmw += 1
+            hs = lm.held_at(b, c.bb, must=True).get(MLOCK_)
+            same = hs is not None and all((lm.held_at(b, l.bb, must=True).get(MLOCK_) or (None, None, '?'))[2] == hs[2] for l in loads)
+            ctx.inst(rid, b.short, 'Manifest::save #%d writes back a manifest loaded in the same critical section' % k3, same,
+                     'save at %s under the acquisition at %s; its manifest was loaded at %s under the acquisition(s) at %s' % (
+                         c.loc, hs[2] if hs else 'none', [l.loc for l in loads], [(lm.held_at(b, l.bb, must=True).get(MLOCK_) or (None, None, 'none'))[2] for l in loads]))
+    ctx.floor(rid, 'manifest read-modify-write pairs', n_rmw, 3, 'rotate_wal_if_needed (1) + create_snapshot (2)')
+
+
 def run(ctx, prog):
     ctx.not_decided = ['the interleavings themselves; only the lock discipline that makes them safe']
     lm = LockModel(prog)
@@ -116,6 +144,7 @@ def run(ctx, prog):
             idx = sum(1 for i in ctx.instances if i['rule'] == 'C09.R3' and i['key'].startswith('C09.R3 | %s | %s' % (b.short, flow.short(c.callee))))
             ctx.inst('C09.R3', b.short, '%s #%d under manifest_lock' % (flow.short(c.callee), idx), MLOCK in h,
                      '%s at %s: held = %s' % (flow.short(c.callee), c.loc, sorted(h)))
+    manifest_rmw(ctx, prog, 'C09.R3', lm)
     ctx.floor('C09.R3', 'Manifest::load/save sites after construction', n_ms, 5, '3 saves + 2 loads (rotate_wal_if_needed, create_snapshot)')
 
     # ------------------------------------------------------------------ R4
